@@ -687,7 +687,17 @@ def compare_values(self, op, a, b):
         a = a.items
     if isinstance(b, NT):
         b = b.items
-    if is_concrete(a) and is_concrete(b) and not isinstance(a, (PObj, PList)) and not isinstance(b, (PObj, PList)):
+    if isinstance(a, PSet) and isinstance(b, PSet):
+        sub = self.methods[("set", "issubset")]
+        if k is ast.LtE:
+            return sub(self, a, [b], {})
+        if k is ast.GtE:
+            return sub(self, b, [a], {})
+        if k is ast.Lt:
+            return _conj(self, sub(self, a, [b], {}), self.unop_value(ast.Not(), sub(self, b, [a], {})))
+        if k is ast.Gt:
+            return _conj(self, sub(self, b, [a], {}), self.unop_value(ast.Not(), sub(self, a, [b], {})))
+    if is_concrete(a) and is_concrete(b) and not isinstance(a, (PObj, PList, PSet, PDict)) and not isinstance(b, (PObj, PList, PSet, PDict)):
         try:
             if k is ast.Lt:
                 return a < b
@@ -1195,6 +1205,8 @@ def do_getattr(self, obj, name):
             self.raise_exc("AttributeError", name)
         raise Unsupported(f"attribute {name} of builtin class {obj.name}")
     elif isinstance(obj, PList):
+        if name == "maxlen" and obj.kind == "deque":
+            return obj.maxlen
         cat = "deque" if obj.kind == "deque" else "list"
     elif isinstance(obj, PDict):
         cat = "dict"
